@@ -296,3 +296,74 @@ def _decided(vc, both):
     if not both:
         return bool(defin)
     return len(ans) >= 2 and all(k in ans for k in ("z3", "cvc5"))
+
+
+# ------------------------------------------------------------------------------------ cone-of-influence fallback
+def _symbols(e, cache={}):
+    key = e.get_id()
+    if key in cache:
+        return cache[key]
+    out = set()
+    seen = set()
+    stack = [e]
+    while stack:
+        x = stack.pop()
+        i = x.get_id()
+        if i in seen:
+            continue
+        seen.add(i)
+        if z3.is_quantifier(x):
+            stack.append(x.body())
+            continue
+        if z3.is_app(x):
+            d = x.decl()
+            if d.kind() == z3.Z3_OP_UNINTERPRETED:
+                out.add(d.name())
+            stack.extend(x.children())
+    cache[key] = out
+    return out
+
+
+def slice_vc(vc):
+    """assertions of the path condition connected (through shared uninterpreted symbols) to the goal"""
+    goal_syms = set(_symbols(vc.goal))
+    items = [(a, _symbols(a)) for a in vc.pc]
+    keep = [False] * len(items)
+    changed = True
+    while changed:
+        changed = False
+        for i, (a, syms) in enumerate(items):
+            if not keep[i] and syms & goal_syms:
+                keep[i] = True
+                goal_syms |= syms
+                changed = True
+    return [a for (a, _), k in zip(items, keep) if k]
+
+
+def sliced_retry(vcs, budget_s=8.0):
+    """for VCs both solvers left open: decide the cone-of-influence slice.  unsat is a proof of the full VC (fewer
+    assumptions); sat gives a counter-model of the slice — the dropped assumptions share no symbol with it, so it extends
+    to the full VC whenever the path itself is feasible (which the executor checked with a bounded budget)."""
+    for vc in vcs:
+        if vc.status != "unknown" or vc.kind == "cover":
+            continue
+        sl = slice_vc(vc)
+        if len(sl) == len(vc.pc):
+            continue
+        s = z3.Solver()
+        s.set("timeout", int(budget_s * 1000))
+        for a in sl:
+            s.add(a)
+        s.add(z3.Not(vc.goal))
+        t0 = time.time()
+        r = s.check()
+        vc.secs += time.time() - t0
+        if r == z3.unsat:
+            vc.status, vc.solver = "discharged", "z3(sliced)"
+        elif r == z3.sat:
+            vc.status, vc.solver = "failed", "z3(sliced)"
+            vc.note = (vc.note + " " if vc.note else "") + f"counter-model of the cone-of-influence slice ({len(sl)} of {len(vc.pc)} assumptions)"
+            try:
+                vc.model = model_to_dict(s.model())
+            except Exception:
+                vc.model = {}
